@@ -8,21 +8,6 @@ import Edn.Spec.Renders
 namespace Edn.Spec
 open Edn.Model
 
-def AllDigits (ds : Bytes) : Prop := ∀ c ∈ ds, is09 c = true
-
-/-- optional fraction: nothing, or a point followed by any number of digits -/
-def FracPart (fr : Bytes) : Prop := fr = [] ∨ ∃ fd, fr = 0x2E :: fd ∧ AllDigits fd
-
-/-- optional exponent: nothing, or `e`/`E`, an optional sign and at least one digit -/
-def ExpPart (ex : Bytes) : Prop :=
-  ex = [] ∨ ∃ e es ed, ex = e :: (es ++ ed) ∧ (e = 0x65 ∨ e = 0x45) ∧ (es = [] ∨ es = [0x2B] ∨ es = [0x2D]) ∧
-    ed ≠ [] ∧ AllDigits ed
-
-/-- core EDN floating-point token: sign, decimal integer part, fraction and/or exponent -/
-def FloatTok (tok : Bytes) : Prop :=
-  ∃ sg ip fr ex neg, tok = sg ++ ip ++ fr ++ ex ∧ SignTok sg neg ∧ DecDigits ip ∧ FracPart fr ∧ ExpPart ex ∧
-    (fr ≠ [] ∨ ex ≠ [])
-
 /-- hexadecimal digits -/
 def AllHex (hs : Bytes) : Prop := ∀ c ∈ hs, (digitValue c 16).isSome = true
 
